@@ -32,6 +32,8 @@ def deck_features(deck):
     kinds = {s['k'] for s in deck['surfs']}
     if kinds & {'rpp', 'box', 'rcc', 'sph', 'rhp', 'hex', 'rec', 'trc', 'ell', 'wed', 'arb'}:
         feats.add('macrobody')
+    if any(c.get('kw_front') or c.get('kw_back') for c in deck['cells']):
+        feats.add('irrelevant_kw')
     return sorted(feats)
 
 
@@ -74,6 +76,8 @@ def run(chk, decks, clauses, seed, opts_of=None, npts=96):
             d = numberings.apply(d, family[i])
         elif i in set(renumbered):
             d = adeck.renumber(d, *adeck.RENUMBERINGS[1 + (i // 3) % 3])
+        if i % 5 == 1:
+            adeck.irrelevant_keywords(d, rng)      # VOL=, NONU=, TMP=, UNC:N= ... on the cell cards
         d['pts'] = adeck.grid_points(rng, npts)
         tid = i + 1
         nd[tid] = d
